@@ -14,6 +14,7 @@ import sys
 
 import core
 import gstate
+import simenv
 import reference
 import sched
 import seams
@@ -57,7 +58,9 @@ class ParsersWorld:
         self.ref = ref
         self.ref_x = ref_x          # pristine reference in an interpreter with ANOTHER hash seed (C14 only)
         # before the library is imported: locks it creates (module level or later) are owned by the scheduler
-        sched.install_lock_seam(os.path.join(os.path.abspath(tree), "simple_ddl_parser") + os.sep)
+        self.lib_prefix = os.path.join(os.path.abspath(tree), "simple_ddl_parser") + os.sep
+        sched.install_lock_seam(self.lib_prefix)
+        simenv.install_datetime()        # before the import: now()/today() read the simulated clock of the run
         import simple_ddl_parser
         assert os.path.abspath(simple_ddl_parser.__file__).startswith(os.path.abspath(tree))
         from simple_ddl_parser import DDLParser, parse_from_file
@@ -183,6 +186,15 @@ class ParsersWorld:
                 elif f < 0.42 and "dump" in op:
                     op["dump_fault"] = rf.choice(["EACCES", "ENOSPC", "EIO"])
             ops.append(op)
+        rc = core.stream(seed, "clock")
+        swarm["clock"] = rc.random() < 0.5
+        if swarm["clock"]:
+            # the simulated clock jumps between operations (a tick ... a month; the wall clock also steps backwards)
+            for op in ops:
+                if rc.random() < 0.5:
+                    j = simenv.draw_jump(rc)
+                    if j:
+                        op["clock"] = j
         return {"world": "parsers", "prop": "C14", "seed": seed, "swarm": swarm, "ops": ops}
 
     # ------------------------------------------------------------------ execution: C14
@@ -228,14 +240,19 @@ class ParsersWorld:
 
         seams.HOOKS.point = point
         seams.HOOKS.io = None
+        clk = simenv.SimClock(self.lib_prefix).install()
+        ctx["clock"] = clk
         try:
             S.add_task("t", body)
             S.run()
         finally:
+            simenv.uninstall()
             seams.HOOKS.point = lambda *a, **k: None
             seams.HOOKS.io = None
             os.chdir(self.workroot)
             shutil.rmtree(cwd, ignore_errors=True)
+        st["stats"].update(clock_jumps=clk.jumps, clock_reads_by_library=clk.lib_reads, clock_slept_s=int(clk.slept))
+        self._env_stats(st["stats"])
         return self._result(st.get("trace_override") or trace, log, st, extra={"line_points": S.line_points})
 
     def _c14_body(self, trace, log, st, ctx, task, S, cwd):
@@ -249,6 +266,8 @@ class ParsersWorld:
         for i, op in enumerate(trace["ops"]):
             stats["ops"] += 1
             kind = op["op"]
+            if op.get("clock"):
+                ctx["clock"].jump(float(op["clock"]))
             before = _snapshot(cwd)
             entitled_files = False
             expected = None
@@ -417,7 +436,9 @@ class ParsersWorld:
                     st["violations"].append({"oracle": "other_environment_differs", "op_index": i, "op": kind,
                                              "environments": [{"PYTHONHASHSEED": os.environ.get("PYTHONHASHSEED")},
                                                               dict(reference.OTHER_ENV, PYTHONHASHSEED=str(self.ref_x.hashseed),
-                                                                   python_O=bool(self.ref_x.optimize))],
+                                                                   python_O=bool(self.ref_x.optimize), clock="years ahead", logging="root logger configured by the application (DEBUG, NullHandler)",
+                                                                   variables_read_at_import_and_flipped=self.ref_x.import_env,
+                                                                   variables_read_and_flipped=self.ref_x.env_dependent[-3:])],
                                              "expected": core.short(expected, 600), "observed": core.short(expected_x, 600),
                                              "diff": core.first_diff(expected, expected_x)})
             if kind == "run" and op.get("scribble") and held and held[-1][0] == i and not st["violations"]:
@@ -455,6 +476,15 @@ class ParsersWorld:
                 log.add("global_state_changed", i=i, keys=ch[:8])
                 if self._victim_sweep(i, ch, trace, st, log):
                     break
+
+    def _env_stats(self, stats):
+        """What the other-environment reference sensed while it answered this run's requests (counters of this child)."""
+        rx = self.ref_x
+        if rx is None:
+            return
+        stats["env_reads_by_library"] = sum(rx.env_keys_sensed.values())
+        stats["env_flip_evaluations"] = rx.env_flips
+        stats["env_dependent_outcomes"] = len(rx.env_dependent)
 
     def _ref_pair(self, ref_args):
         """The same request to both pristine references at once (same hash seed; other hash seed and locale)."""
@@ -646,6 +676,7 @@ class ParsersWorld:
                 for kw in t["runs"]:
                     kw["output_mode"] = m
             swarm["distinct_modes"] = True
+        swarm["clock"] = core.stream(seed, "clock").random() < 0.4
         return {"world": "parsers", "prop": "C15", "seed": seed, "swarm": swarm, "tasks": tasks}
 
     @staticmethod
@@ -694,11 +725,16 @@ class ParsersWorld:
               "kinds": []}
         outcomes = []     # (tid, run index, outcome)
         running = {"n": 0}
+        clk = simenv.SimClock(self.lib_prefix).install()
+        rclk = core.stream(int(trace.get("seed") or 0), "clock-jumps") if swarm.get("clock") else None
 
         def point(label, obj=None):
             task = S.current_task()
             if task is None:
                 return
+            if rclk is not None and rclk.random() < 0.15:
+                # the simulated clock jumps at scheduling points (between statements, around constructors and runs)
+                clk.jump(simenv.draw_jump(rclk))
             if label == "before_stmt":
                 task.stmt_n = getattr(task, "stmt_n", 0) + 1
                 c = getattr(task, "cancel_stmt", None)
@@ -811,9 +847,11 @@ class ParsersWorld:
             except sched.Blocked as e:
                 blocked = str(e)
         finally:
+            simenv.uninstall()
             seams.HOOKS.point = lambda *a, **k: None
             os.chdir(self.workroot)
             shutil.rmtree(cwd, ignore_errors=True)
+        st["stats"].update(clock_jumps=clk.jumps, clock_reads_by_library=clk.lib_reads, clock_slept_s=int(clk.slept))
         trace_out = dict(trace)
         trace_out.pop("order", None)
         trace_out["schedule"] = chooser.recorded
